@@ -194,9 +194,16 @@ impl RW for std::net::TcpStream {
 }
 
 fn reply_obj(cont: bool, err: Option<&String>, params: Option<&Value>) -> Vec<u8> {
+    reply_obj_spelled(cont, err, params, false)
+}
+
+/// `spell_false`: a final reply spells out `"continues": false` (legal; other implementations write it)
+fn reply_obj_spelled(cont: bool, err: Option<&String>, params: Option<&Value>, spell_false: bool) -> Vec<u8> {
     let mut m = Map::new();
     if cont {
         m.insert("continues".into(), json!(true));
+    } else if spell_false {
+        m.insert("continues".into(), json!(false));
     }
     if let Some(e) = err {
         m.insert("error".into(), json!(e));
@@ -250,8 +257,9 @@ pub fn run_case(c: &Case, dir: &std::path::Path, n: u64) -> Result<(), Fail> {
     }
     let mut close_after = false;
     match &c.fin {
-        Final::Ok(p) => script.extend_from_slice(&reply_obj(false, None, p.as_ref())),
-        Final::Err(nm, p) => script.extend_from_slice(&reply_obj(false, nm.as_ref(), p.as_ref())),
+        // every third case spells the final reply's `continues` member out
+        Final::Ok(p) => script.extend_from_slice(&reply_obj_spelled(false, None, p.as_ref(), n % 3 == 2)),
+        Final::Err(nm, p) => script.extend_from_slice(&reply_obj_spelled(false, nm.as_ref(), p.as_ref(), n % 3 == 2)),
         Final::Close => close_after = true,
     }
     let give_up = std::sync::Arc::new(std::sync::atomic::AtomicBool::new(false));
@@ -402,6 +410,9 @@ fn case_strategy() -> impl Strategy<Value = Case> {
             })
         }),
         2 => ("[a-z]{1,5}\\.[a-z]{1,5}\\.[A-Z][a-zA-Z]{0,6}", params()).prop_map(|(n, p)| Final::Err(Some(n), p)),
+        // an interface's own error that shares a standard error's last element
+        1 => (prop::sample::select(vec!["com.example.store.InvalidParameter", "org.varlink.resolver.InterfaceNotFound", "a.b.MethodNotFound", "io.x.y.MethodNotImplemented"]), params())
+            .prop_map(|(n, p)| Final::Err(Some(n.to_string()), p)),
         1 => Just(Final::Close),
     ];
     (any::<bool>(), prop::collection::vec(params(), 0..=8), fin, 0u8..3, any::<bool>(), prop_oneof![1 => Just(None), 3 => stable_json(2).prop_map(|v| Some(if v.is_object() { v } else { json!({"a": v}) }))])
@@ -444,7 +455,7 @@ pub fn run(args: &Args) -> ! {
     let counter = std::cell::Cell::new(0u64);
     // systematic sweep: k = 0..8 x final kinds x address forms x color
     for k in 0..=8usize {
-        for (fi, fin) in [Final::Ok(Some(json!({"i": k}))), Final::Err(Some("org.example.fake.Oops".into()), Some(json!({"why": "x"}))), Final::Err(Some(STD[1].0.to_string()), Some(json!({"parameter": "p"}))), Final::Close].into_iter().enumerate() {
+        for (fi, fin) in [Final::Ok(Some(json!({"i": k}))), Final::Err(Some("org.example.fake.Oops".into()), Some(json!({"why": "x"}))), Final::Err(Some(STD[1].0.to_string()), Some(json!({"parameter": "p"}))), Final::Err(Some("com.example.store.InvalidParameter".into()), Some(json!({"parameter": "size", "limit": 5}))), Final::Close].into_iter().enumerate() {
             let c = Case { more: true, conts: (0..k).map(|i| Some(json!({"i": i}))).collect(), fin, addr_form: (k + fi) as u8 % 3, color: (k + fi) % 2 == 0, args: Some(json!({"k": k})) };
             counter.set(counter.get() + 1);
             ctx.case(if nontrivial(&c) { Some(hash64(&case_json(&c).to_string())) } else { None });
